@@ -78,6 +78,8 @@ def cross_process_solvers(ctx, n):
         ctx.count(len(suffix))
         ctx.distinct("xproc:" + str(i) + cls)
         for k, kind, why in res["fails"]:
+            if kind.endswith(":replaced-to-constant"):
+                continue          # the open C13 finding, round trip or not
             fails.append({"cls": cls, "cfg": cfg, "hist": prefix + [{"s": s_, "op": "pickle"} for s_ in range(len(solvers))] + suffix,
                           "fails": [[len(prefix) + len(solvers) + k, kind + ":fresh-process", why]]})
             break
